@@ -363,6 +363,14 @@ fn run_batch(o: &Opts) -> Batch {
 // evidence
 // ---------------------------------------------------------------------------------------
 
+fn probe_range(prop: &str) -> (usize, usize) {
+    match prop {
+        "C19" => (Pr::rng_samples as usize, stats::PROBE_NAMES.len()),
+        "C04" => (0, Pr::neg_multi_limb as usize),
+        _ => (0, Pr::rng_samples as usize),
+    }
+}
+
 fn write_evidence(o: &Opts, b: &Batch, violations: i128, known_hits: &[String], cross: Option<J>) {
     let path = match &o.evidence {
         Some(p) => p.clone(),
@@ -382,6 +390,7 @@ fn write_evidence(o: &Opts, b: &Batch, violations: i128, known_hits: &[String], 
          non-trivial = at least 2 effective (non-zero, non-NaR) accumulated terms AND at least one of: sign change, cross-limb carry/borrow, \
          leading bit moved by 8+, exact cancellation, or a non-accumulate event fired"
     };
+    let (plo, phi) = probe_range(&o.prop);
     let mut cov: Vec<(&str, J)> = vec![
         ("evaluations", i(b.runs_done)),
         ("distinct_nontrivial", i(b.distinct_nontrivial)),
@@ -396,8 +405,9 @@ fn write_evidence(o: &Opts, b: &Batch, violations: i128, known_hits: &[String], 
         ])),
         ("events_enabled_runs", json::map(&st.named("ev_enabled_runs."))),
         ("events_fired", json::map(&st.named("ev_fired."))),
-        ("reach_probes", json::map(&st.named("probe."))),
-        ("runs_by_type", json::map(&st.named("runs."))),
+        ("reach_probes", json::map(&st.named_range("probe.", plo, phi))),
+        ("reach_probes_never_hit", J::A(st.named_range("probe.", plo, phi).iter().filter(|(_, v)| **v == 0).map(|(k, _)| s(k)).collect())),
+        ("runs_by_type", json::map(&st.named_range("runs.", plo, phi))),
         ("batch_digest", s(&format!("{:016x}", b.digest))),
         ("workers", i(o.workers as u64)),
         ("build_profile", s(&o.profile)),
@@ -431,6 +441,7 @@ fn write_evidence(o: &Opts, b: &Batch, violations: i128, known_hits: &[String], 
         cov.push(("state_measure", s("abstract state = (quire type, poisoned, sign, index of leading bit, limb of lowest set bit); transition = (state, event kind, state')")));
         cov.push(("spellings", json::map(&st.named("spelling."))));
         cov.push(("generator", json::map(&st.named("gen."))));
+        cov.push(("runs_ended_by_other_propertys_clause", json::map(&st.named("runs.ended_by_"))));
     }
     if let Some(c) = cross {
         cov.push(("cross_profile", c));
@@ -713,9 +724,9 @@ fn cmd_run(o: &Opts) -> i32 {
         b.qfails.len() + b.rfails.len()
     );
     // probes stuck at zero are a defect of the workload: say so
-    for (idx, name) in stats::PROBE_NAMES.iter().enumerate() {
-        let relevant = if o.prop == "C19" { name.starts_with("probe.") && idx >= Pr::rng_samples as usize } else if o.prop == "C04" { name.starts_with("probe.") && idx < Pr::neg_multi_limb as usize } else { name.starts_with("probe.") && idx < Pr::ended_by_c04 as usize };
-        if relevant && b.stats.c[idx] == 0 {
+    let (plo, phi) = probe_range(&o.prop);
+    for (name, v) in b.stats.named_range("probe.", plo, phi) {
+        if v == 0 {
             println!("note: reach probe never hit in this batch: {name}");
         }
     }
